@@ -531,6 +531,29 @@ theorem C16_header_reopen (f g : Fn) (hf : f = .readExchange ∨ f = .readWorkin
     writeHeader (readFileH g st' (writeHeader (readFileH f st (stdHeader fd fn fs opt)).mgr)).mgr = stdHeader fd fn fs opt := by
   rw [C16_header_survives f hf st fd fn fs opt hopt, C16_header_survives g hg st' fd fn fs opt hopt]
 
+/-- the append functions do not clear: once the object holds a header in Part 21 order with at least one optional instance
+    (4 or more instances, `headerReplaceBelow`), AppendExchangeFile / AppendWorkingFile of ANY file leave the held header
+    instances exactly as they are — ids included — and the next save writes the old header (the `_headerId` counter moves on) -/
+theorem C16_header_append_keeps_old (f : Fn) (hf : f = .appendExchange ∨ f = .appendWorking) (st : HState)
+    {fd fn fs : HEnt} {rest : List (Nat × HEnt)} (hs : Shape st.mgr fd fn fs rest) (hr : rest ≠ []) (ents : List HEnt) :
+    (readFileH f st ents).mgr = st.mgr := by
+  have hsite : (site f).2 = false := by rcases hf with h | h <;> subst h <;> rfl
+  have h1 : st.mgr.has 1 = true := by simp [HMgr.has, HMgr.ids, hs.nodes]
+  have h2 : st.mgr.has 2 = true := by simp [HMgr.has, HMgr.ids, hs.nodes]
+  have h3 : st.mgr.has 3 = true := by simp [HMgr.has, HMgr.ids, hs.nodes]
+  have hlen : ¬ st.mgr.nodes.length < headerReplaceBelow := by
+    have : headerReplaceBelow = 4 := rfl
+    rw [hs.nodes, this]
+    cases rest with
+    | nil => exact absurd rfl hr
+    | cons x xs => simp
+  have ho : headerMergeOrder = [2, 1, 3] := rfl
+  unfold readFileH
+  simp only [hsite, Bool.false_eq_true, if_false]
+  unfold merge
+  rw [if_neg hlen, ho]
+  simp [h1, h2, h3]
+
 /-- the order matters: in a NEW object (`_headerId` 0) a working-session file whose header has an optional entity BEFORE the
     three required ones — not the order Part 21 prescribes, and never written by the library — gives that entity id 1, pushes
     FILE_DESCRIPTION / FILE_NAME / FILE_SCHEMA to 2 / 3 / 4, and the next save drops the optional entity and writes
